@@ -3,8 +3,13 @@
 TB_COMMON = [
     "Coq 8.16.1 kernel + coqc (full .vo build); vm_compute for evaluating models/specs on cases; no native_compute",
     "no axioms declared by the development (grep gate on every run); Print Assumptions output of every property theorem recorded in this file",
-    "hand-written Gallina model tied to /repo by differential runs of the real Go code (harness built from /repo's working tree with -tags verif) on generated inputs; generator reach bounds the tie",
-    "translator /verif/translate (Go AST -> coq/Extracted.v) trusted to read constants; Go runtime/stdlib trusted; int overflow at 2^63 out of scope",
+    "two ties to /repo, both checked on every run: (1) source-tie theorems (proofs/Tie*.v) proving that the Gallina translation of the current Go source computes what the hand-written model computes, for all inputs; "
+    "(2) differential runs of the real Go code (harness built from /repo's working tree with -tags verif) against the model on generated inputs - generator reach bounds this second tie, which also covers the code outside the translated files",
+    "translator /verif/translate: main.go reads constants and wiring expressions into coq/Extracted.v; fn.go translates frameloop.go, motionprocessor.go, motion.go, "
+    "throttled_recorder.go and loglimiter.go (methods and constructors) syntactically into coq/translated/*.v on every run - trusted to be a faithful reading of the Go subset "
+    "(int as Z without overflow, frames as handles, slices by value, left-to-right evaluation, defer order); every call leaving the translated files is an external call whose meaning "
+    "is given by the hand-written handlers model/*Ext.v (modelling assumptions, validated by running translated code + handler, hand-written model and the real Go code on the same inputs)",
+    "Go runtime/stdlib trusted; int overflow at 2^63 out of scope",
 ]
 
 PROC_TB = TB_COMMON + [
